@@ -431,6 +431,11 @@ def reject_probes(rec):
             o = h.Bundle(name=f"BAfterOuter{next(_ctr)}")
             o.y = h.Signal()
             o.inner = outer()
+            # (further sub-bundles after it: the definition edited below is the FIRST of several members)
+            for extra in range(2):
+                sib = h.Bundle(name=f"BAfterSib{next(_ctr)}")
+                sib.q = h.Signal()
+                setattr(o, f"sib{extra}", sib())
             outer = o
         m = h.Module(name=f"BAfterM{next(_ctr)}")
         if how == "port":
